@@ -10,9 +10,9 @@ import EntraitProofs.C10
   their signature — identical, except for the one documented rewrite of an `async fn` declaration
   (no `async_trait` in force) into `fn -> impl ::core::future::Future<Output = R> [+ Send]`.
 
-  The property as stated also demands `unsafe`ness, *every* attribute on the trait, default
-  method bodies and associated types.  The unchanged macro does **not** preserve these:
-  `C09_unsafe_dropped`, `C09_attrs_dropped`, `C09_default_dropped`, `C09_assoc_dropped` prove it
+  Every attribute of the trait is kept (`attrs_kept`, since fix 58615e0).
+  The property as stated also demands `unsafe`ness, default method bodies and associated types.
+  The macro does **not** preserve these: `C09_unsafe_dropped`, `C09_default_dropped`, `C09_assoc_dropped` prove it
   of the model on concrete witnesses (the same witnesses are replayed on the real macro by the
   check and recorded as known findings).  Hence `_partial`.
 -/
@@ -62,6 +62,13 @@ theorem members_ok (t : TraitItem) (o : Opts) (fs : List TraitFnItem) :
     simp only [List.map_cons, List.filter_cons, GenMember.sig?, Option.isSome_some, if_true, zipAll, Bool.and_eq_true]
     exact ⟨by simp [declMemberOk, traitFnOf, declRewritten_eq], ih⟩
 
+/-- since fix 58615e0 every attribute of the entraited trait is kept, in order, after the macro's own -/
+theorem attrs_kept (opts : Opts) (t : TraitItem) (vis ident tg sup fns) :
+    t.attrs.all (fun a => (genTraitDef opts .trait .generic t.attrs vis ident tg sup fns .rawTrait).attrs.contains a) = true := by
+  simp only [genTraitDef, reappliedSubs_rawTrait, List.all_eq_true, List.contains_iff_mem, decide_eq_true_eq]
+  intro a ha
+  exact List.mem_append_right _ ha
+
 theorem T_C09_partial (v : Variant) (attr : Toks) (item : Item) (out : Out)
     (h : expand v attr item = .ok out) : P_C09 v attr item out.view = true := by
   cases item with
@@ -76,7 +83,7 @@ theorem T_C09_partial (v : Variant) (attr : Toks) (item : Item) (out : Out)
       List.cons_append, traitsOf, List.head?_cons, List.append_nil]
     have hm := members_ok t (v.apply a0.opts) t.fns
     simp only [Bool.and_eq_true]
-    refine ⟨⟨?_, ?_⟩, ?_⟩
+    refine ⟨⟨⟨?_, ?_⟩, attrs_kept _ t _ _ _ _ _⟩, ?_⟩
     · simp [genTraitDef, traitVisibility, traitTg, traitSup]
     · simp only [genTraitDef, entraitAttrOf, List.append_nil, List.all_eq_true, List.mem_append, Bool.or_eq_true]
       intro a ha
@@ -84,8 +91,7 @@ theorem T_C09_partial (v : Variant) (attr : Toks) (item : Item) (out : Out)
       · exact Or.inr (unimockAttr_mock _ _ _ _ a ha)
       · exact Or.inr (mockallAttr_mock _ a ha)
       · left
-        simp only [reappliedSubs] at ha
-        simpa using (List.mem_filter.mp ha).1
+        simpa using mem_reappliedSubs ha
     · simpa [genTraitDef, TraitItem.fns] using hm
 
 /-! ### what the unchanged macro does not preserve (negations, by evaluation) -/
@@ -102,12 +108,6 @@ def wMethod : TraitFnItem := { sig := { ident := "m", inputs := [.recv [] (some 
 theorem C09_unsafe_dropped :
     ((witnessOut { ident := "Tr", unsafe_ := true, members := [.fn wMethod] }).map (fun g => (g.print.take 2))) =
       some [i "trait", i "Tr"] := by decide +kernel
-
-/-- `#[allow(unused)] trait Tr { fn m(&self); }`: the attribute is dropped -/
-theorem C09_attrs_dropped :
-    F_C09_attrs (.trait { ident := "Tr", attrs := [{ inner := [i "allow", parens [i "unused"]] }], members := [.fn wMethod] })
-      (match expand .plain [] (.trait { ident := "Tr", attrs := [{ inner := [i "allow", parens [i "unused"]] }], members := [.fn wMethod] }) with
-       | .ok out => out.view | _ => {}) = true := by decide +kernel
 
 /-- `trait Tr { fn m(&self) { } }`: the default body is dropped -/
 theorem C09_default_dropped :
